@@ -321,6 +321,7 @@ def walk_curve(connection, kind, reference_level=None, rng=None, cache=None):
         if cache is not None:
             cache[('own', kind, gs)] = own
 
+    hit('classified-intervals-crossing-no-grid-level', sum(1 for s_ in own if not own[s_]))
     # ---- C13 crossing values, levels in grid
     n_amb = 0
     for s, levels in byint.items():
